@@ -128,10 +128,35 @@ func (e *Engine) opaqueSort(t types.Type) (*Sort, bool) {
 	if s, ok := opaqueSorts[typeKey(n)]; ok {
 		return s, true
 	}
-	if _, isStruct := n.Underlying().(*types.Struct); isStruct && !e.inModule(n.Obj().Pkg()) {
+	if st, isStruct := n.Underlying().(*types.Struct); isStruct && !e.inModule(n.Obj().Pkg()) {
+		if plainDataStruct(st, 0) {
+			// option/record structs of dependencies whose fields are all exported
+			// are modelled structurally (field by field), like in-module structs
+			return nil, false
+		}
 		return SInt, true
 	}
 	return nil, false
+}
+
+// plainDataStruct: every field is exported and not itself a struct with hidden
+// state (checked to a small depth).
+func plainDataStruct(st *types.Struct, depth int) bool {
+	if st.NumFields() == 0 || depth > 2 {
+		return false
+	}
+	for i := 0; i < st.NumFields(); i++ {
+		f := st.Field(i)
+		if !f.Exported() || f.Embedded() {
+			return false
+		}
+		if inner, ok := f.Type().Underlying().(*types.Struct); ok {
+			if !plainDataStruct(inner, depth+1) {
+				return false
+			}
+		}
+	}
+	return true
 }
 
 func isFloat(t types.Type) bool {
